@@ -738,7 +738,60 @@ func (x *Exec) havocUnknownSig(fr *Frame, st *State, sig *types.Signature, args 
 // havocArgs havocs the abstract library state reachable from arguments passed to unknown code:
 // contents of byte slices, buffer lengths, header maps.
 func (x *Exec) havocArgs(fr *Frame, st *State, args []Value, sig *types.Signature) {
-	for _, a := range args {
+	for i, a := range args {
+		// a *bytes.Buffer (directly, or possibly inside an interface value) handed to code without
+		// a model may be written to, read from or reset: its length is unknown afterwards
+		if sig != nil {
+			var pt types.Type
+			off := 0
+			if sig.Recv() != nil {
+				off = 1
+			}
+			if i == 0 && sig.Recv() != nil {
+				pt = sig.Recv().Type()
+			} else if i-off >= 0 && i-off < sig.Params().Len() {
+				pt = sig.Params().At(i - off).Type()
+			}
+			if pt != nil && typeKey(pt) == "*bytes.Buffer" {
+				if vt, ok := a.(VTerm); ok {
+					n := x.vc.Fresh("hv.blen", SInt)
+					x.vc.Assert(And(Ge(n, IntLit(0)), Le(n, BigLit(pow2(48)))))
+					x.setBufLen(st, vt.T, n)
+				}
+			}
+		}
+		ioLike := false
+		if sig != nil {
+			off := 0
+			if sig.Recv() != nil {
+				off = 1
+			}
+			var pt types.Type
+			if i == 0 && sig.Recv() != nil {
+				pt = sig.Recv().Type()
+			} else if i-off >= 0 && i-off < sig.Params().Len() {
+				pt = sig.Params().At(i - off).Type()
+			}
+			if it, ok := pt.(interface{ Underlying() types.Type }); ok && pt != nil {
+				if ifc, ok := it.Underlying().(*types.Interface); ok {
+					for m := 0; m < ifc.NumMethods(); m++ {
+						switch ifc.Method(m).Name() {
+						case "Write", "Read", "WriteTo", "ReadFrom", "WriteString", "WriteByte":
+							ioLike = true
+						}
+					}
+				}
+			}
+		}
+		if iv, ok := a.(VIface); ok && !x.inSpec && ioLike {
+			isBuf := Eq(iv.Tag, IntLit(x.bufTag()))
+			if !isBuf.IsFalse() {
+				n := x.vc.Fresh("hv.blen", SInt)
+				x.vc.Assert(And(Ge(n, IntLit(0)), Le(n, BigLit(pow2(48)))))
+				h := x.heapGet(st, kBufLen, arrOf(SInt))
+				x.heapSet(st, kBufLen, x.vc.Name(Ite(isBuf, Store(h, iv.Val, n), h), "H|buf|len"))
+			}
+		}
 		switch v := a.(type) {
 		case VSlice:
 			if !v.Back.Heap {
